@@ -146,6 +146,8 @@ def cases(tier):
                     out.append(mk(combo, f"sock:{cut}"))
                 for bs in (1, 2, 5):
                     out.append(mk(combo, "sock", bufsize=bs))
+                for seg in (1, 2, 3, 7):  # every recv() returns at most `seg` bytes
+                    out.append(mk(combo, "sock:" + ",".join([str(seg)] * (data_len // seg + 1))))
             elif d == 3 and tier == "thorough":
                 out.append(mk(combo, "buf:2:3"))
                 out.append(mk(combo, "sock:7,1,2"))
